@@ -189,6 +189,9 @@ def gen_cases(ctx, quick):
     add(3, 65411, 125, [3, 250] + list(range(250)), 'R', 1)
     add(6, 3, 513, [6, 0, 3, 2, 1], 'R', 7)
     add(1, 0, 1, [], 'T', 1)
+    for k in (1, 2, 3, 4):                       # the largest replies, also ending at address 65535 (logging walks, decode-max pass)
+        for s0 in (0, 65536 - LIMIT[k], r.randrange(0, 65536 - LIMIT[k])):
+            add(k, s0, LIMIT[k], genuine(r, k, s0, LIMIT[k]), 'T', 1)
     # F10: struct literals that were never validated, with the replies that used to be accepted / to panic
     add(1, 0, 0, [1, 0], 'T', 1, 1)
     add(1, 65535, 10, [1, 2, 0xFF, 0x03], 'T', 1, 1)
@@ -235,7 +238,7 @@ def gen_cases(ctx, quick):
                 for m in ms:
                     add(k, s, n, m)
     # random PDUs of length 0..253 (function byte biased towards the interesting ones)
-    for _ in range(1500 if quick else 30000):
+    for _ in range(1000 if quick else 30000):
         k = r.choice(list(KIND_NAME))
         if k in (5, 6):
             s, n = r.randrange(65536), (r.randrange(2) if k == 5 else r.randrange(65536))
@@ -435,6 +438,102 @@ def rtu_canon(i):
     return i
 
 
+# ---------------------------------------------------------------------------------------------
+# TCP byte streams that force the reader's 260-byte buffer to compact: [frame to be skipped][reply] in one read
+# (Properties/C04_System.v quantifies over every stream and chunking; this family is the generator for that corner)
+# ---------------------------------------------------------------------------------------------
+def gen_tcp_compaction_cases(r, n):
+    cases = []
+    while len(cases) < n:
+        k = r.choice([1, 2, 3, 3, 4, 4])
+        big = r.random() < 0.7
+        cnt = (LIMIT[k] - r.choice([0, 0, 0, 1, 2, 7])) if big else r.choice([1, 9, 16, 60, r.randrange(1, LIMIT[k])])
+        s0 = r.randrange(0, 65536 - cnt + 1)
+        g = genuine(r, k, s0, cnt)
+        second = r.choice(['genuine', 'genuine', 'genuine', 'genuine', 'exception', 'wrong-function', 'one-byte-short', 'bit-flip-in-data'])
+        pdu2 = list(g)
+        if second == 'exception':
+            pdu2 = [k | 0x80, r.choice(EX_CODES)]
+        elif second == 'wrong-function':
+            pdu2 = [k ^ 1] + g[1:]
+        elif second == 'one-byte-short':
+            pdu2 = g[:-1]
+        elif second == 'bit-flip-in-data' and len(g) > 2:
+            i = r.randrange(2, len(g))
+            pdu2 = g[:i] + [g[i] ^ (1 << r.randrange(8))] + g[i + 1:]
+        reply = mbap(0, 1, pdu2)
+        b = len(reply)
+        # the frame(s) to be skipped: late replies to earlier requests / foreign transaction ids; total length a with a + b > 260
+        lo = max(9, 261 - b)
+        a = r.choice([lo, lo, lo + 1, 259, r.randrange(lo, 260)]) if lo <= 259 else 259
+        nstale = r.choice([1, 1, 1, 2])
+        stale = []
+        rest = a
+        for j in range(nstale):
+            ln = rest if j == nstale - 1 else r.randrange(9, max(10, rest - 9)) if rest >= 18 else rest
+            ln = max(9, min(259, ln))
+            stale += mbap(r.choice([0xFFFF, 1, 5, r.randrange(1, 65536)]), r.choice([1, 17]), [r.choice([k, 3, 1, k | 0x80])] + [r.randrange(256) for _ in range(ln - 8)])
+            rest -= ln
+            if rest < 9:
+                break
+        stream = stale + reply
+        tail = r.choice(['', '', 'noise', 'second-reply'])
+        if tail == 'noise':
+            stream += [r.randrange(256) for _ in range(r.randrange(1, 9))]
+        elif tail == 'second-reply':
+            stream += mbap(0, 1, genuine(r, k, s0, cnt))
+        how = r.choice(['whole', 'whole', 'at-259', 'at-260', 'at-261', 'at-stale-end', 'random'])
+        if how == 'whole' or len(stream) < 262:
+            chunks = [stream]
+        elif how.startswith('at-2'):
+            p = int(how[3:])
+            chunks = [stream[:p], stream[p:]]
+        elif how == 'at-stale-end':
+            p = len(stale) + r.choice([-1, 0, 1, 7])
+            chunks = [stream[:p], stream[p:]]
+        else:
+            chunks = cut(r, stream, 'random')
+        cases.append({'kind': k, 'start': s0, 'count': cnt, 'unit': 1, 'chunks': [c for c in chunks if c], 'fin': r.choice(['P', 'P', 'P', 'Z']), 'first': second, 'tail': tail,
+                      'a': len(stale), 'b': b, 'how': how, 'style': r.choice([0, 0, 1, 2])})
+    return cases
+
+
+def tcp_line(c):
+    return 'T' + rtu_line(c)[1:]
+
+
+def tcp_compaction_family(ctx, n, cases=None):
+    cases = cases or gen_tcp_compaction_cases(ctx.rng, n)
+    impl = ctx.harness('cresp', [tcp_line(c) for c in cases])
+    ok = ctx.build_models(['Model.SystemClientRtuEval'])
+    both = ctx.coq_eval(['Base.Show', 'Model.ClientShow', 'Model.SystemClientRtuEval'], 'eval_tcp_syscase', [rtu_coq(c) for c in cases],
+                        case_type='rtu_syscase', per_shard=40) if ok else [None] * len(cases)
+    bad = 0
+    classes = {}
+    for c, i, b in zip(cases, impl, both):
+        got = rtu_canon(i)
+        classes['tcp-compaction:' + c['first']] = classes.get('tcp-compaction:' + c['first'], 0) + 1
+        classes['tcp-compaction-cut:' + c['how']] = classes.get('tcp-compaction-cut:' + c['how'], 0) + 1
+        if c['a'] + c['b'] > 260:
+            classes['tcp-compaction:a+b>260'] = classes.get('tcp-compaction:a+b>260', 0) + 1
+        if c['b'] == 259:
+            classes['tcp-compaction:reply-of-259-bytes'] = classes.get('tcp-compaction:reply-of-259-bytes', 0) + 1
+        if b is None:
+            continue
+        model, spec = b.split('|')
+        spec = model if spec == '=' else spec
+        if got != spec or got != model:
+            bad += 1
+            if bad <= 2:
+                key = f'client.tcp-stream.skipped-frame-then-{c["first"]}-reply.result-differs-from-the-spec' if got != spec else 'model-differs-from-impl'
+                ctx.violation(key, f'{KIND_NAME[c["kind"]]} ({c["start"]},{c["count"]}) over TCP (tx id 0): {c["a"]} bytes of frames with other transaction ids followed by a '
+                              f'{c["b"]}-byte {c["first"]} reply, delivered in chunks of {[len(x) for x in c["chunks"]]} bytes then {c["fin"]}: the client reports `{i[:70]}`, '
+                              f'Spec ref_client_result says `{spec[:70]}`, client_system says `{model[:70]}` [cresp: {tcp_line(c)[:120]}...]',
+                              {'tcp_cases': [c], 'impl': i, 'spec': spec, 'model': model}, no_failing_input=(got == spec))
+    ctx.oblige('correspondence:tcp-byte-stream-with-buffer-compaction-vs-client_system-and-its-spec', bad == 0, f'{bad} of {len(cases)}')
+    return len(cases), classes
+
+
 def rtu_stream_family(ctx, n, cases=None):
     cases = cases or gen_rtu_cases(ctx.rng, n)
     impl = ctx.harness('cresp', [rtu_line(c) for c in cases])
@@ -625,6 +724,10 @@ def run(ctx):
         n_rtu, _ = rtu_stream_family(ctx, 0, cases=ctx.replay['rtu_cases'])
         ctx.coverage.update({'evaluations': n_rtu, 'distinct_nontrivial': n_rtu, 'rule': 'replay of RTU byte-stream cases', 'samples': []})
         return
+    if ctx.replay and 'tcp_cases' in ctx.replay:
+        n_t, _ = tcp_compaction_family(ctx, 0, cases=ctx.replay['tcp_cases'])
+        ctx.coverage.update({'evaluations': n_t, 'distinct_nontrivial': n_t, 'rule': 'replay of TCP compaction cases', 'samples': []})
+        return
     if ctx.replay and 'cabi_cases' in ctx.replay:
         n_c = cabi_exception_family(ctx, quick, given=ctx.replay['cabi_cases'])
         ctx.coverage.update({'evaluations': n_c, 'distinct_nontrivial': n_c, 'rule': 'replay of C-ABI exception cases', 'samples': []})
@@ -719,15 +822,22 @@ def run(ctx):
     if not ctx.replay:
         n_cabi = cabi_exception_family(ctx, quick)
         classes['cabi-exception-cases'] = n_cabi
+    n_tcp = 0
+    if not ctx.replay:
+        n_tcp, tcp_classes = tcp_compaction_family(ctx, 200 if quick else 5000)
+        classes.update(tcp_classes)
+        tmiss = [x for x in ('tcp-compaction:a+b>260', 'tcp-compaction:reply-of-259-bytes', 'tcp-compaction:genuine', 'tcp-compaction-cut:whole', 'tcp-compaction-cut:at-259',
+                             'tcp-compaction-cut:at-260', 'tcp-compaction-cut:at-261') if classes.get(x, 0) < 3]
+        ctx.oblige('tcp-compaction-generator-reaches-expected-classes', not tmiss, f'missing={tmiss}')
     n_conn = 0
     if not ctx.replay:
-        n_conn, conn_classes = connections_family(ctx, 300 if quick else 6000)
+        n_conn, conn_classes = connections_family(ctx, 200 if quick else 6000)
         classes.update(conn_classes)
         cmiss = [x for x in ('conn-exchange:torn', 'conn-exchange:torn-header', 'conn-exchange:full+torn', 'conn-exchange:genuine', 'conn-exchange:stale+genuine') if classes.get(x, 0) < 3]
         ctx.oblige('connections-generator-reaches-expected-classes', not cmiss, f'missing={cmiss}')
     n_rtu = 0
     if not ctx.replay:
-        n_rtu, rtu_classes = rtu_stream_family(ctx, 700 if quick else 12000)
+        n_rtu, rtu_classes = rtu_stream_family(ctx, 450 if quick else 12000)
         classes.update(rtu_classes)
         need_rtu = ['rtu-stream:' + x for x in ('genuine', 'mutated', 'exception', 'other-unit', 'crc-damaged', 'bit-flip', 'truncated', 'unknown-fc',
                                                 'too-long-count', 'nothing')] + \
@@ -736,7 +846,7 @@ def run(ctx):
         miss = [x for x in need_rtu if classes.get(x, 0) < 3]
         ctx.oblige('rtu-stream-generator-reaches-expected-classes', not miss and 'rtu-result:PANIC' not in classes, f'missing={miss}')
     ctx.coverage.update({
-        'evaluations': len(cases) + n_rtu + n_cabi + n_conn,
+        'evaluations': len(cases) + n_rtu + n_cabi + n_conn + n_tcp,
         'distinct_nontrivial': len({c for c in cases if len(c[5]) >= 2}),
         'rule': 'cases (framing, kind, unit, start, count|value, reply PDU, range-is-struct-literal) from a seeded PRNG: F10 corpus (unvalidated range literals must be rejected), for every request kind and boundary range the genuine reply and its mutations (truncation, extension, function byte, byte-count byte, data bits, echo fields, coil raw value, exception replies) plus random PDUs of length 0..253; non-trivial = PDU of at least two bytes; distinct by value. RTU framing only where the RTU response parser delimits the PDU as such. Plus the RTU byte-stream family: raw chunked line bytes (genuine / mutated / exception / other unit / CRC damaged / bit flip / truncated / unknown function / over-long count / nothing, with noise or a second frame behind, then pending / EOF / error) vs client_system_rtu and ref_client_result_rtu',
         'samples': [[line(c)[:100], r[0][:60]] for c, r in list(zip(cases, results))[:8]],
